@@ -678,6 +678,133 @@ theorem addFiles_ok {useAll : Bool} : ∀ (fs : List File) (st : State),
     · exact addFiles_ok fs st hw'
     · exact addFiles_ok fs _ hw'
 
+mutual
+theorem processMsg_not_decode
+    (hnames : ∀ (pre : Name) (k : Kind) (l : List (Option Name)), processNames pre k l ≠ .error .decode)
+    (henums : ∀ (pre : Name) (es : List EnumD), processEnums pre es ≠ .error .decode) :
+    ∀ (m : Msg) (pre : Name), processMsg pre m ≠ .error .decode
+  | .mk none nested enums fields oneofs, pre => by simp [processMsg, extractName]
+  | .mk (some mn) nested enums fields oneofs, pre => by
+    simp only [processMsg, extractName_some]
+    cases ha : processMsgs (qual pre mn) nested with
+    | error e =>
+      intro h'; simp at h'
+      exact processMsgs_not_decode hnames henums nested _ (by rw [ha, h'])
+    | ok a =>
+      cases hb : processEnums (qual pre mn) enums with
+      | error e => intro h'; simp at h'; exact henums _ _ (by rw [hb, h'])
+      | ok b =>
+        cases hc : processNames (qual pre mn) .field fields with
+        | error e => intro h'; simp at h'; exact hnames _ _ _ (by rw [hc, h'])
+        | ok c =>
+          cases hd : processNames (qual pre mn) .oneof oneofs with
+          | error e => intro h'; simp at h'; exact hnames _ _ _ (by rw [hd, h'])
+          | ok d => simp
+theorem processMsgs_not_decode
+    (hnames : ∀ (pre : Name) (k : Kind) (l : List (Option Name)), processNames pre k l ≠ .error .decode)
+    (henums : ∀ (pre : Name) (es : List EnumD), processEnums pre es ≠ .error .decode) :
+    ∀ (ms : MsgList) (pre : Name), processMsgs pre ms ≠ .error .decode
+  | .nil, pre => by simp [processMsgs]
+  | .cons m ms, pre => by
+    simp only [processMsgs]
+    cases ha : processMsg pre m with
+    | error e =>
+      intro h'; simp at h'
+      exact processMsg_not_decode hnames henums m pre (by rw [ha, h'])
+    | ok a =>
+      cases hb : processMsgs pre ms with
+      | error e =>
+        intro h'; simp at h'
+        exact processMsgs_not_decode hnames henums ms pre (by rw [hb, h'])
+      | ok b => simp
+end
+
+/-- The loop never reports a decode error (decoding happens before it). -/
+theorem processFile_not_decode (f : File) : processFile f ≠ .error .decode := by
+  intro h
+  have hne : ∀ (pre : Name) (k : Kind) (o : Option Name), extractName pre k o ≠ .error .decode := by
+    intro pre k o; cases o <;> simp [extractName]
+  have hnames : ∀ (pre : Name) (k : Kind) (l : List (Option Name)), processNames pre k l ≠ .error .decode := by
+    intro pre k l
+    induction l with
+    | nil => simp [processNames]
+    | cons x xs ih =>
+      cases x with
+      | none => simp [processNames, extractName]
+      | some n =>
+        simp only [processNames, extractName_some]
+        cases hr : processNames pre k xs with
+        | error e => intro h'; simp at h'; exact ih (by rw [hr, h'])
+        | ok r => simp
+  have henum : ∀ (pre : Name) (e : EnumD), processEnum pre e ≠ .error .decode := by
+    intro pre e
+    unfold processEnum
+    cases hn : e.name with
+    | none => simp [extractName]
+    | some en =>
+      simp only [extractName_some]
+      cases hr : processNames (qual pre en) .enumValue e.values with
+      | error err => intro h'; simp at h'; exact hnames _ _ _ (by rw [hr, h'])
+      | ok r => simp
+  have henums : ∀ (pre : Name) (es : List EnumD), processEnums pre es ≠ .error .decode := by
+    intro pre es
+    induction es with
+    | nil => simp [processEnums]
+    | cons e es ih =>
+      simp only [processEnums]
+      cases ha : processEnum pre e with
+      | error err => intro h'; simp at h'; exact henum pre e (by rw [ha, h'])
+      | ok a =>
+        cases hb : processEnums pre es with
+        | error err => intro h'; simp at h'; exact ih (by rw [hb, h'])
+        | ok b => simp
+  have hsvcs : ∀ (pre : Name) (ss : List Service), processServices pre ss ≠ .error .decode := by
+    intro pre ss
+    induction ss with
+    | nil => simp [processServices]
+    | cons sv ss ih =>
+      simp only [processServices]
+      cases hn : sv.name with
+      | none => simp [extractName]
+      | some sn =>
+        simp only [extractName_some]
+        cases hm : processNames (qual pre sn) .method sv.methods with
+        | error err => intro h'; simp at h'; exact hnames _ _ _ (by rw [hm, h'])
+        | ok ms =>
+          cases hr : processServices pre ss with
+          | error err => intro h'; simp at h'; exact ih (by rw [hr, h'])
+          | ok r => simp
+  have hmsgs : ∀ (ms : MsgList) (pre : Name), processMsgs pre ms ≠ .error .decode :=
+    processMsgs_not_decode hnames henums
+  unfold processFile at h
+  simp only at h
+  cases ha : processMsgs (f.package.getD []) f.messages with
+  | error e => simp [ha] at h; exact hmsgs _ _ (by rw [ha, h])
+  | ok a =>
+    cases hb : processEnums (f.package.getD []) f.enums with
+    | error e => simp [ha, hb] at h; exact henums _ _ (by rw [hb, h])
+    | ok b =>
+      cases hc : processServices (f.package.getD []) f.services with
+      | error e => simp [ha, hb, hc] at h; exact hsvcs _ _ (by rw [hc, h])
+      | ok c => simp [ha, hb, hc] at h
+
+theorem addFiles_not_decode {useAll : Bool} : ∀ (fs : List File) (st : State),
+    addFiles useAll fs st ≠ .error .decode
+  | [], st => by simp [addFiles]
+  | f :: fs, st => by
+    simp only [addFiles]
+    cases f.name with
+    | none => simp
+    | some nm =>
+      simp only
+      split
+      · exact addFiles_not_decode fs st
+      · cases hp : processFile f with
+        | error e =>
+          intro h'; simp at h'
+          exact processFile_not_decode f (by rw [hp, h'])
+        | ok r => exact addFiles_not_decode fs _
+
 /-! ### E. the builder -/
 
 theorem decodedSets_flatten (regs : List Reg) :
@@ -765,5 +892,47 @@ theorem procFiles_with_own (c : Config) (o : List File) :
 theorem decodable_with_own (c : Config) (o : List File) :
     ({ c with own := some o } : Config).decodable = ({ c with own := none } : Config).decodable := by
   simp [Config.decodable, Config.allRegs, Reg.decodable]
+
+/-! ### F. the served files, independently of the examination order -/
+
+theorem servedFrom_names_distinct : ∀ (fs done : List File),
+    List.Pairwise (fun a b : File => a.name ≠ b.name) (servedFrom done fs)
+  | [], _ => by simp [servedFrom]
+  | f :: fs, done => by
+    simp only [servedFrom]
+    split
+    · exact servedFrom_names_distinct fs _
+    · refine List.pairwise_cons.mpr ⟨fun g hg => ?_, servedFrom_names_distinct fs _⟩
+      exact (mem_servedFrom.mp hg).1 f (by simp)
+
+theorem served_nodup (l : List File) : (served l).Nodup :=
+  (servedFrom_names_distinct l []).imp (fun h e => h (by rw [e]))
+
+theorem mem_served_of_unconflicted {l : List File} (hu : ∀ f ∈ l, Unconflicted l f) {a : File} :
+    a ∈ served l ↔ a ∈ l := by
+  simp only [served, mem_servedFrom, List.not_mem_nil, false_imp_iff, implies_true, true_and]
+  constructor
+  · exact List.mem_of_find?_eq_some
+  · intro ha
+    have hsome : (l.find? (fun x => decide (x.name = a.name))).isSome = true := by
+      rw [List.find?_isSome]; exact ⟨a, ha, by simp⟩
+    obtain ⟨g, hg⟩ := Option.isSome_iff_exists.mp hsome
+    have hgn : g.name = a.name := by simpa using List.find?_some hg
+    rw [hg, hu a ha g (List.mem_of_find?_eq_some hg) hgn]
+
+/-- Without contested file names, which files are served does not depend on the order in which
+the registrations are examined. -/
+theorem served_perm {l₁ l₂ : List File} (hp : l₁.Perm l₂) (hu : ∀ f ∈ l₂, Unconflicted l₂ f) :
+    (served l₁).Perm (served l₂) := by
+  have hu1 : ∀ f ∈ l₁, Unconflicted l₁ f := fun f hf g hg hn =>
+    hu f (hp.mem_iff.mp hf) g (hp.mem_iff.mp hg) hn
+  rw [List.perm_ext_iff_of_nodup (served_nodup l₁) (served_nodup l₂)]
+  intro a
+  rw [mem_served_of_unconflicted hu1, mem_served_of_unconflicted hu, hp.mem_iff]
+
+theorem procFiles_perm (c : Config) : c.procFiles.Perm c.files := by
+  unfold Config.procFiles Config.files
+  rw [← List.flatten_append, ← List.map_append]
+  exact ((List.filter_append_perm Reg.isDecoded c.allRegs).map Reg.files).flatten
 
 end Reflection
